@@ -144,3 +144,32 @@ harness!(c16_next_previous_quick, unwind = 44, |s| {
     v_assert!(s, Some(pv.duration.to_parts()) == shift_parts((c, n), -(k_prev as i128) * NPD as i128), "previous: 1..7 whole days earlier on the requested weekday (TAI calendar), same time of day");
     v_cover!(k_next == 7 && c == 1 && tod < 37 * NPS, "same weekday requested, first seconds of a TAI day in the 21st century reachable");
 });
+
+// narrow-window twin of the harness above: the first and last two minutes of fourteen consecutive TAI days of 2024. A change
+// that makes next/previous consult another calendar (e.g. the UTC weekday) differs from the TAI calendar exactly in such
+// windows; the small domain keeps the leap-second table scan such a change brings in within CBMC's reach.
+harness!(c16_next_previous_midnight_windows, unwind = 44, |s| {
+    let dayc = s.u32();
+    let tod = s.u64();
+    // 2024-01-01 is day 45290 after 1900-01-01 = day 8765 of century 1
+    s.assume(dayc >= 8_765 && dayc < 8_779 && (tod < 120 * NPS || tod >= NPD - 120 * NPS) && tod < NPD);
+    let (w, wi) = any_weekday(s);
+    let c = 1i16;
+    let n = dayc as u64 * NPD + tod;
+    let e = Epoch::from_duration(Duration::from_parts(c, n), TimeScale::TAI);
+    let day = 36_525 + dayc as i64;
+    let wd = (day % 7) as i16;
+    let mut k_next = (wi as i16 - wd + 7) % 7;
+    if k_next == 0 {
+        k_next = 7;
+    }
+    let mut k_prev = (wd - wi as i16 + 7) % 7;
+    if k_prev == 0 {
+        k_prev = 7;
+    }
+    let nx = e.next(w);
+    let pv = e.previous(w);
+    v_assert!(s, Some(nx.duration.to_parts()) == shift_parts((c, n), k_next as i128 * NPD as i128) && nx.time_scale == TimeScale::TAI, "next: 1..7 whole days later on the requested weekday of the TAI calendar");
+    v_assert!(s, Some(pv.duration.to_parts()) == shift_parts((c, n), -(k_prev as i128) * NPD as i128) && pv.time_scale == TimeScale::TAI, "previous: 1..7 whole days earlier on the requested weekday of the TAI calendar");
+    v_cover!(k_next == 7 && tod < 37 * NPS, "same weekday requested in the first seconds of a TAI day reachable");
+});
